@@ -32,13 +32,14 @@ EXPLANATION = (
     ' MergedSequences bisect indexing / negative indices / read-ahead'
     ' (arithmetic over runtime lengths).'
 )
-ASSUMPTIONS = ['shard_index in [0, num_shards) and num_shards >= 1 (validated'
+ASSUMPTIONS = ['_RangeIterator read-ahead size is >= 1 (max_batch_size >= 1).',
+               'shard_index in [0, num_shards) and num_shards >= 1 (validated'
                ' or documented domain); remainder and shard_index are'
                ' non-negative so accelerated sums need no clamping at 0.']
 
 
 def run(ctx: Ctx):
-  for r in (r1, r2, r3, r4, r5):
+  for r in (r1, r2, r3, r4, r5, r6, r7):
     ctx.guard(r)
 
 
@@ -144,7 +145,10 @@ def r2(ctx: Ctx):
   # which ShardConfig field records which shard() parameter
   want = {'shard_index': s.p_index, 'num_shards': s.p_num, 'start_index': s.p_off}
   ok = all(rec.get(f) == p for f, p in want.items())
-  parent_ok = rec.get('parent') in ('self._shard_state', 'self.state')
+  parent_vals = s.other_locals.get(rec.get('parent'), {rec.get('parent')})
+  parent_ok = bool(parent_vals) and all(v in ('self._shard_state', 'self.state') for v in parent_vals)
+  if not parent_ok:
+    rec['parent'] = ' | '.join(sorted(str(v) for v in parent_vals))
   if ok and parent_ok:
     ctx.ok(rule, fi, f'ShardConfig records {rec}', ctor)
   else:
@@ -185,12 +189,54 @@ def r2(ctx: Ctx):
       isinstance(x, ast.Call) and isinstance(x.func, ast.Attribute)
       and x.func.attr == 'from_state' and f'{sp}.parent' in unparse(x)
       for x in cfgm.node_exprs(n))]
-  root = [n for n in g.nodes if any(
-      isinstance(x, ast.Call) and unparse(x.func).split('.')[-1] in (
-          'SequenceDataSource', '__class__', 'cls')
-      and not any(k.arg in ('_start', '_end', '_shard_state') for k in x.keywords)
-      and len(x.args) <= 1
-      for x in cfgm.node_exprs(n))]
+  # the unsharded root: a fresh source that carries every public
+  # configuration field of this one and none of the shard window
+  ci = repo.cls(IO, 'SequenceDataSource')
+  init_fields = [f for c_ in reversed(repo.mro(ci)) if c_.is_dataclass
+                 for f in c_.fields if f.init]
+  public = [f.name for f in init_fields if not f.name.startswith('_')]
+  private = {f.name: f for f in init_fields if f.name.startswith('_')}
+  root = []
+  for n_ in g.nodes:
+    for x in cfgm.node_exprs(n_):
+      for c_ in ast.walk(x):
+        if not isinstance(c_, ast.Call):
+          continue
+        fn_ = unparse(c_.func)
+        if fn_.split('.')[-1] in ('SequenceDataSource', '__class__', 'cls') or fn_ in (
+            'type(self)',):
+          passed_ = {}
+          for f_, a_ in zip([f.name for f in init_fields], c_.args):
+            passed_[f_] = unparse(a_)
+          for k_ in c_.keywords:
+            if k_.arg:
+              passed_[k_.arg] = unparse(k_.value)
+          if any(k_ in passed_ for k_ in private):
+            continue
+          missing = [f_ for f_ in public if passed_.get(f_) != f'self.{f_}']
+          if missing:
+            ctx.fail(rule, fs, c_, 'from_state rebuilds the unsharded source without'
+                     f' carrying over {missing} of this source: the rebuilt shard'
+                     ' is configured differently from the source it was recorded'
+                     ' on (e.g. loses ignore_error)')
+          root.append(n_)
+        elif fn_ in ('dc.replace', 'dataclasses.replace') and c_.args and unparse(
+            c_.args[0]) == 'self':
+          kws = {k_.arg: k_.value for k_ in c_.keywords}
+          reset = True
+          for name_, f_ in private.items():
+            v_ = kws.get(name_)
+            if v_ is None:
+              reset = False
+            elif f_.default is not None and unparse(v_) == unparse(f_.default):
+              pass
+            elif (f_.default_factory is not None and isinstance(v_, ast.Call) and not v_.args
+                  and not v_.keywords and unparse(v_.func) == unparse(f_.default_factory)):
+              pass
+            else:
+              reset = False
+          if reset:
+            root.append(n_)
   cond = [n for n in g.nodes if n.kind == 'cond' and f'{sp}.parent' in unparse(n.ast)]
   if rec_calls and root and cond:
     ctx.ok(rule, fs, 'parent chain replayed first, unsharded root otherwise', fs.node)
@@ -365,6 +411,175 @@ def r5(ctx: Ctx):
   ctx.floor(rule, 2, n)
 
 
+class _Opaque(af.AffEval):
+  """AffEval that keeps unsupported sub-expressions as opaque atoms."""
+
+  def __init__(self, names):
+    super().__init__(names)
+    self.opaque = False
+
+  def expr(self, e):
+    try:
+      return super().expr(e)
+    except af.AffUnsupported:
+      if isinstance(e, ast.BinOp) and isinstance(e.op, (ast.Add, ast.Sub, ast.Mult)):
+        l, r = self.expr(e.left), self.expr(e.right)
+        return l + r if isinstance(e.op, ast.Add) else l - r if isinstance(e.op, ast.Sub) else l * r
+      if isinstance(e, ast.Call) and unparse(e.func) in ('min', 'np.minimum') and not e.keywords:
+        return af.MIN(*[self.expr(a) for a in e.args])
+      self.opaque = True
+      return Poly.atom(('opaque', ast.dump(e)))
+
+
+def _paths(stmts):
+  """Statement paths through a block of assignments / if-else (no loops)."""
+  if not stmts:
+    yield []
+    return
+  s, rest = stmts[0], stmts[1:]
+  if isinstance(s, ast.If):
+    for br, pol in ((s.body, True), (s.orelse, False)):
+      for p in _paths(br):
+        for q in _paths(rest):
+          yield [('cond', s.test, pol)] + p + q
+    return
+  if isinstance(s, (ast.For, ast.While, ast.Try, ast.With, ast.Match)):
+    raise AnalysisError(f'R-C09-6: unsupported statement `{unparse(s)[:40]}` in the read block')
+  for q in _paths(rest):
+    yield [s] + q
+
+
+def r6(ctx: Ctx):
+  rule = 'R-C09-6'
+  ctx.rule(rule, 'read window of _RangeIterator.__next__: on every path of the'
+           ' read block the elements cached are data[i:hi] with i the current'
+           ' index and hi <= stop (hi is min(..., stop), or i+1 under the loop'
+           ' guard i < stop), and the index then advances by exactly hi - i:'
+           ' a range never reads past its stop (shards stay disjoint) and'
+           ' never skips or repeats an element')
+  fi = ctx.repo.func('utils.iter_utils', '_RangeIterator.__next__')
+  loops = [x for x in walk_no_nested(fi.node) if isinstance(x, ast.While)]
+  tries = [x for l in loops for x in l.body if isinstance(x, ast.Try)]
+  if len(loops) != 1 or len(tries) != 1:
+    raise AnalysisError(f'{rule}: expected one while loop with one try block')
+  loop, tr = loops[0], tries[0]
+  guard_ok = any(isinstance(c, ast.Compare) and len(c.ops) == 1 and (
+      isinstance(c.ops[0], ast.Lt) and is_self_attr(c.left, 'i') and is_self_attr(c.comparators[0], 'stop')
+      or isinstance(c.ops[0], ast.Gt) and is_self_attr(c.left, 'stop') and is_self_attr(c.comparators[0], 'i'))
+                 for c in ([loop.test] + (loop.test.values if isinstance(loop.test, ast.BoolOp)
+                                          and isinstance(loop.test.op, ast.And) else [])))
+  i, stop, bsz = af.V('i'), af.V('stop'), af.V('B')
+  n = 0
+  for path in _paths(tr.body):
+    ev = _Opaque({'self.i': i, 'self.stop': stop, 'self._batch_size': bsz,
+                  'self.start': af.V('start')})
+    reads = []
+    adv = Poly()
+    where = tr
+    unit: dict[str, Poly] = {}
+    for st in path:
+      if isinstance(st, tuple):
+        # a size known to be >= 1 that is not > 1 is exactly 1
+        _, t, pol = st
+        if isinstance(t, ast.Compare) and len(t.ops) == 1 and isinstance(
+            t.comparators[0], ast.Constant):
+          c, op = t.comparators[0].value, type(t.ops[0])
+          one = (not pol and (op, c) in ((ast.Gt, 1), (ast.GtE, 2), (ast.NotEq, 1))) or (
+              pol and (op, c) in ((ast.LtE, 1), (ast.Lt, 2), (ast.Eq, 1)))
+          if one:
+            try:
+              lv = ev.expr(t.left)
+            except AnalysisError:
+              lv = None
+            vs = af.vars_of(lv) if lv is not None else set()
+            if lv is not None and len(vs) == 1 and (lv - af.V(next(iter(vs)))).is_zero():
+              unit[next(iter(vs))] = af.K(1)
+        continue
+      for x in ast.walk(st):
+        if isinstance(x, ast.Subscript) and is_self_attr(x.value, 'data'):
+          where = st
+          if isinstance(x.slice, ast.Slice):
+            if x.slice.step is not None or x.slice.lower is None or x.slice.upper is None:
+              raise AnalysisError(f'{rule}: unsupported slice {unparse(x)}')
+            reads.append((ev.expr(x.slice.lower), ev.expr(x.slice.upper), x))
+          else:
+            lo = ev.expr(x.slice)
+            reads.append((lo, lo + af.K(1), x))
+      if isinstance(st, ast.Assign) and len(st.targets) == 1 and isinstance(st.targets[0], ast.Name):
+        ev.env[st.targets[0].id] = ev.expr(st.value)
+      elif isinstance(st, ast.AugAssign) and is_self_attr(st.target, 'i'):
+        v = ev.expr(st.value)
+        adv = adv + v if isinstance(st.op, ast.Add) else adv - v
+      elif isinstance(st, ast.Assign) and any(is_self_attr(t, 'i') for t in st.targets):
+        adv = ev.expr(st.value) - i
+    n += 1
+    desc = ' / '.join(('' if pol else 'not ') + unparse(t) for k, t, pol in
+                      [p for p in path if isinstance(p, tuple)]) or 'straight'
+    if len(reads) != 1:
+      ctx.fail(rule, fi, f'_RangeIterator.__next__ read block [{desc}]: one read of self.data',
+               f'{len(reads)} reads of self.data on one path through the read'
+               ' block: elements are cached twice or not at all', node=where)
+      continue
+    lo, hi, node = reads[0]
+    if unit:
+      lo, hi, adv = af.subst(lo, unit), af.subst(hi, unit), af.subst(adv, unit)
+    problems = []
+    if not (lo - i).is_zero():
+      problems.append('the read does not start at the current index self.i')
+    clamped = False
+    if len(hi.t) == 1:
+      (mono, c), = hi.t.items()
+      if c == 1 and len(mono) == 1 and mono[0][1] == 1 and mono[0][0][0] == 'min':
+        clamped = af.reg(stop) in mono[0][0][1]
+    if not clamped and not ((hi - lo - af.K(1)).is_zero() and guard_ok):
+      problems.append('the upper bound of the read is not clamped to self.stop'
+                      ' (elements of the next range are read as well)')
+    if not (adv - (hi - lo)).is_zero():
+      problems.append('self.i does not advance by exactly the number of elements read')
+    if problems and ev.opaque:
+      raise AnalysisError(f'{rule}: cannot evaluate the read window on path [{desc}]')
+    if problems:
+      ctx.fail(rule, fi, f'_RangeIterator.__next__ read block [{desc}]: window [i, min(.., stop)) and i += width',
+               '; '.join(problems) + ': ranges overlap, skip or repeat elements',
+               node=node)
+    else:
+      ctx.ok(rule, fi, f'path [{desc}]: reads {unparse(node)} within [i, stop), advances by its width', node)
+  ctx.floor(rule, 2, n)
+
+
+def r7(ctx: Ctx):
+  rule = 'R-C09-7'
+  ctx.rule(rule, 'merged-sequence index table: the list MergedSequences bisects'
+           ' to locate an element is provably ascending — [0] followed by the'
+           ' running sums of the sub-sequence lengths, never reordered or'
+           ' edited afterwards (ordered-argument provenance, see R-C07-7)')
+  from mlmverif.props.c07 import ORDERED_ARG
+  from mlmverif.sortedness import Sortedness
+  so = Sortedness(ctx.repo)
+  mi = ctx.repo.module('utils.iter_utils')
+  ci = ctx.repo.cls('utils.iter_utils', 'MergedSequences')
+  n = 0
+  for fi in ci.methods.values():
+    for c in ast.walk(fi.node):
+      if not isinstance(c, ast.Call) or unparse(c.func) not in ORDERED_ARG:
+        continue
+      pos, kw = ORDERED_ARG[unparse(c.func)]
+      arg = c.args[pos] if len(c.args) > pos else next(
+          (k.value for k in c.keywords if k.arg == kw), None)
+      if arg is None:
+        raise AnalysisError(f'{rule}: ordered argument of {unparse(c)[:50]} not found')
+      n += 1
+      ok, why = so.expr(arg, fi)
+      if ok:
+        ctx.ok(rule, fi, f'{unparse(c.func)}: `{unparse(arg)}` ordered: {why}', c)
+      else:
+        ctx.fail(rule, fi, f'{fi.qualname}: {unparse(c.func)}(<ordered>, ..)',
+                 f'`{unparse(arg)}` is bisected but not provably ascending ({why}):'
+                 ' elements of a merged sequence are looked up in the wrong'
+                 ' sub-sequence', node=c)
+  ctx.floor(rule, 1, n)
+
+
 from mlmverif.selfcheck import B, OK  # noqa: E402
 
 _F = 'chainables/io.py'
@@ -408,6 +623,45 @@ VARIANTS = [
     B('round-robin-swapped', _F,
       '    while self._index % num_shards != shard_index:',
       '    while self._index % shard_index != num_shards:', 'R-C09-4'),
+    B('seq-idxs-not-cumulative', 'utils/iter_utils.py',
+      '    self._seq_idxs.extend(itt.accumulate(map(len, self._sequences), op.add))',
+      '    self._seq_idxs.extend(map(len, self._sequences))', 'R-C09-7'),
+    B('seq-idxs-seeded-wrong', 'utils/iter_utils.py', '    self._seq_idxs = [0]\n',
+      '    self._seq_idxs = [1]\n', 'R-C09-7'),
+    OK('seq-idxs-accumulate-default-op', 'utils/iter_utils.py',
+       '    self._seq_idxs.extend(itt.accumulate(map(len, self._sequences), op.add))',
+       '    self._seq_idxs.extend(itt.accumulate(len(s) for s in self._sequences))'),
+    B('range-read-unclamped', 'utils/iter_utils.py',
+      '          batch_size = min(self.i + self._batch_size, self.stop) - self.i\n', '          pass\n',
+      'R-C09-6'),
+    B('range-advance-full-batch', 'utils/iter_utils.py', '        self.i += batch_size',
+      '        self.i += self._batch_size', 'R-C09-6'),
+    B('range-reads-twice', 'utils/iter_utils.py',
+      '          self._cache.append(self.data[self.i])',
+      '          self._cache.append(self.data[self.i])\n          self._cache.append(self.data[self.i])',
+      'R-C09-6'),
+    B('shard-elides-trivial-parent', _F,
+      '    shard_state = ShardConfig(\n        shard_index, num_shards, offset, parent=self._shard_state\n    )',
+      '    parent = self._shard_state\n    if parent.parent is None and parent.num_shards == 1:\n      parent = None\n    shard_state = ShardConfig(shard_index, num_shards, offset, parent=parent)',
+      'R-C09-2'),
+    B('replay-root-drops-config', _F,
+      '      result = SequenceDataSource(self.data, ignore_error=self.ignore_error)',
+      '      result = SequenceDataSource(self.data)', 'R-C09-2'),
+    B('replay-root-keeps-window', _F,
+      '      result = SequenceDataSource(self.data, ignore_error=self.ignore_error)',
+      '      result = dc.replace(self, _shard_state=ShardConfig())', 'R-C09-2'),
+    OK('replay-root-via-replace', _F,
+       '      result = SequenceDataSource(self.data, ignore_error=self.ignore_error)',
+       '      result = dc.replace(self, _shard_state=ShardConfig(), _start=0, _end=None)'),
+    OK('shard-parent-via-local', _F,
+       '    shard_state = ShardConfig(\n        shard_index, num_shards, offset, parent=self._shard_state\n    )',
+       '    parent = self._shard_state\n    shard_state = ShardConfig(shard_index, num_shards, offset, parent=parent)'),
+    OK('range-upper-inline', 'utils/iter_utils.py',
+       '          self._cache.extend(self.data[self.i : self.i + batch_size])',
+       '          upper = min(self.stop, self.i + self._batch_size)\n          self._cache.extend(self.data[self.i : upper])'),
+    OK('range-else-advance-one', 'utils/iter_utils.py',
+       '        batch_size = self._batch_size\n        if self._batch_size > 1:',
+       '        batch_size = 1\n        if self._batch_size > 1:'),
     OK('closed-form-shard', _F,
        '    start, adjusted_interval = self.start, 0\n    for i in range(shard_index + 1):\n      adjusted_interval = interval + 1 if i < remainder else interval\n      start += adjusted_interval if i < shard_index else 0\n',
        '    start = self.start + shard_index * interval + min(shard_index, remainder)\n    adjusted_interval = interval + (1 if shard_index < remainder else 0)\n'),
